@@ -40,7 +40,7 @@ def check_C22(tier, seed):
     res.cov["rule"] += (" C22 sub-universe: gen/foldfam.py enumerates count-filter operator x argument {-1,0,1,2,3,u64::MAX} (and lists, and pairs of bounds) x 11 observation classes "
                         "(nothing, count output, outputs inside, nested fold outputs / count, count tag used in a parent filter / sibling fold / nested scope of a sibling fold / another count filter) x fold sizes 0..4, at the root and under an @optional; "
                         "Sem.tla never terminates a fold early, so bag equality with it is the property. Model level: Interp with FoldCollect's max/min stopping rules produces the same rows on a sample.")
-    res.notes.update({"ok_by_decoration": bydecor, "mc_instances": len(small), "mc_states": mc["distinct"], "mc_complete": mc["complete"]})
+    res.notes.update({"ok_by_decoration": bydecor, "mc_instances": len(small), "mc_states": mc["distinct"], "mc_complete": mc["complete"], "mc_actions_never_taken": [a for a, n in mc["actions"].items() if n == 0]})
     res.assumptions += ["Sem.tla's @fold (materialise everything, then filter on the count) states the language semantics"]
     return res
 
@@ -172,7 +172,7 @@ def check_C12(tier, seed):
         if len(base) >= 2:   # two bad values at once (MultipleErrors)
             maps.append([[base[0][0], G.L([G.L([G.NULL])])], [base[1][0], G.B(True)]] + base[2:])
         inst["argmaps"] = maps
-    obs = observe(keep, wd, "argcheck", seed)
+    obs = observe(keep, wd, "ir,argcheck", seed)
     cases = []; owner = []
     for inst, o in zip(keep, obs):
         if o["compile"]["t"] != "ok" or "argcheck" not in o: continue
@@ -181,6 +181,24 @@ def check_C12(tier, seed):
                 res.violation(f"argument validation panicked: {out['err'][:200]} for variables {o['ir']['vars']} and arguments {[(a, G.pretty(b)) for a, b in m]}", text=out["err"],
                               tags=props.inst_tags(inst), replay={"query": inst["text"], "arguments": m}); continue
             cases.append({"id": len(cases) + 1, "vars": o["ir"]["vars"], "given": m, "outcome": {k: out[k] for k in ("t", "missing", "unused", "badtype")}}); owner.append(inst)
+    # "the type the query implies for that variable": the recorded variable types are the ones spec/Query.tla derives from the source query
+    from props_engine import judge
+    ok = [(i, o) for i, o in zip(keep, obs) if o["compile"]["t"] == "ok" and "ir" in o]
+    vv = judge(res, "JudgeIR", [{k: i[k] for k in ("id", "schema", "q")} for i, _ in ok], [{"id": i["id"], "ir": o["ir"]} for i, o in ok], wd, "vars")
+    shared = 0
+    for inst, o in ok:
+        uses = {}
+        for c in o["ir"]["comps"]:
+            for f in [f for vx in c["vertices"] for f in vx["filters"]] + [f for it in c["items"] for f in it["post"]]:
+                if f["arg"]["k"] == "var": uses[f["arg"]["n"]] = uses.get(f["arg"]["n"], 0) + 1
+        if any(n > 1 for n in uses.values()): shared += 1
+        v = vv.get(inst["id"], {})
+        if "C11.bad" in v:
+            broken = [c for c in json.loads(tla_unquote(v["C11.bad"])) if "variable" in c]
+            if broken:
+                res.violation(f"the variable types recorded for the query {[(x[0], x[1]['text']) for x in o['ir']['vars']]} are not the ones the query implies, so argument validation judges values against the wrong type: {inst['text']!r}",
+                              text="implied-variable-types", tags=props.inst_tags(inst), replay=props.replay_case(inst, None, ir_vars=o["ir"]["vars"]))
+    res.notes["queries_with_a_variable_used_more_than_once"] = shared
     nsh = max(1, min(4, len(cases) // 4000))
     import concurrent.futures as cf
     def one(s):
